@@ -103,38 +103,50 @@ where
 {
     let (signatures_key, mut signature_map) = match object.remove_entry("signatures") {
         Some((key, CanonicalJsonValue::Object(signatures))) => (Cow::Owned(key), signatures),
-        Some(_) => return Err(JsonError::not_of_type("signatures", JsonType::Object)),
+        Some((key, value)) => {
+            // Put the field back, the object must be left untouched on error.
+            object.insert(key, value);
+            return Err(JsonError::not_of_type("signatures", JsonType::Object));
+        }
         None => (Cow::Borrowed("signatures"), BTreeMap::new()),
     };
+    let had_signatures = matches!(signatures_key, Cow::Owned(_));
 
     let maybe_unsigned_entry = object.remove_entry("unsigned");
 
-    // Get the canonical JSON string.
-    let json = to_json_string(object).map_err(JsonError::Serde)?;
+    let result = (|| {
+        // Get the canonical JSON string.
+        let json = to_json_string(object).map_err(JsonError::Serde)?;
 
-    // Sign the canonical JSON string.
-    let signature = key_pair.sign(json.as_bytes());
+        // Check that we can insert the new signature in the map we pulled out (or created)
+        // previously, before signing.
+        let signature_set = signature_map
+            .entry(entity_id.to_owned())
+            .or_insert_with(|| CanonicalJsonValue::Object(BTreeMap::new()));
 
-    // Insert the new signature in the map we pulled out (or created) previously.
-    let signature_set = signature_map
-        .entry(entity_id.to_owned())
-        .or_insert_with(|| CanonicalJsonValue::Object(BTreeMap::new()));
+        let signature_set = match signature_set {
+            CanonicalJsonValue::Object(obj) => obj,
+            _ => return Err(JsonError::not_multiples_of_type("signatures", JsonType::Object)),
+        };
 
-    let signature_set = match signature_set {
-        CanonicalJsonValue::Object(obj) => obj,
-        _ => return Err(JsonError::not_multiples_of_type("signatures", JsonType::Object)),
-    };
+        // Sign the canonical JSON string.
+        let signature = key_pair.sign(json.as_bytes());
 
-    signature_set.insert(signature.id(), CanonicalJsonValue::String(signature.base64()));
+        signature_set.insert(signature.id(), CanonicalJsonValue::String(signature.base64()));
 
-    // Put `signatures` and `unsigned` back in.
-    object.insert(signatures_key.into(), CanonicalJsonValue::Object(signature_map));
+        Ok(())
+    })();
+
+    // Put `signatures` and `unsigned` back in, even on error so the object is left as it was.
+    if result.is_ok() || had_signatures {
+        object.insert(signatures_key.into(), CanonicalJsonValue::Object(signature_map));
+    }
 
     if let Some((k, v)) = maybe_unsigned_entry {
         object.insert(k, v);
     }
 
-    Ok(())
+    result
 }
 
 /// Converts an event into the [canonical] string form.
